@@ -516,7 +516,15 @@ where
 
         // calculate the svd
         let svd_epsilon = self.svd_epsilon;
-        let current_svd = Phi_w.as_ref().map(|Phi_w| Phi_w.clone().svd(true, true));
+        // the decomposition of a finite matrix with an extreme dynamic range can
+        // still produce non-finite singular values, which must not be sorted
+        let current_svd = Phi_w.as_ref().and_then(|Phi_w| {
+            let mut svd = Phi_w.clone().svd_unordered(true, true);
+            svd.singular_values.iter().all(|s| s.is_finite()).then(|| {
+                svd.sort_by_singular_values();
+                svd
+            })
+        });
         let linear_coefficients = current_svd
             .as_ref()
             .and_then(|svd| svd.solve(&self.Y_w, svd_epsilon).ok());
@@ -664,7 +672,15 @@ where
 
         // calculate the svd
         let svd_epsilon = self.svd_epsilon;
-        let current_svd = Phi_w.as_ref().map(|Phi_w| Phi_w.clone().svd(true, true));
+        // the decomposition of a finite matrix with an extreme dynamic range can
+        // still produce non-finite singular values, which must not be sorted
+        let current_svd = Phi_w.as_ref().and_then(|Phi_w| {
+            let mut svd = Phi_w.clone().svd_unordered(true, true);
+            svd.singular_values.iter().all(|s| s.is_finite()).then(|| {
+                svd.sort_by_singular_values();
+                svd
+            })
+        });
         let linear_coefficients = current_svd
             .as_ref()
             .and_then(|svd| svd.solve(&self.Y_w, svd_epsilon).ok());
